@@ -220,7 +220,11 @@ func collectVisibleValue(db *NoKV.DB, iter utils.Iterator, key []byte, readTs ui
 			return nil, false, err
 		}
 		switch write.Kind {
-		case pb.Mutation_Delete, pb.Mutation_Rollback:
+		case pb.Mutation_Rollback, pb.Mutation_Lock:
+			// No data at this version: keep looking at older versions.
+			iter.Next()
+			continue
+		case pb.Mutation_Delete:
 			advanceToNextUserKey(iter, key)
 			return nil, false, nil
 		default:
